@@ -377,14 +377,14 @@ def run_gate(n, res):
             want = (whole.t == 0) if raised else (whole.t != 0)
             ok_model = eng.check3(want) == 'sat' or eng.check3() == 'sat'
             if ok_model:
-                m = eng.solver.model()
+                m = eng.model()
                 buf = rdrdrv.model_bytes(m, x)
                 res['cex'].append({'kind': 'parse', 'buffer': buf.hex(), 'validate': m.eval(v.t, model_completion=True).as_long(),
                                    'checks': ['crcgate', 'total'], 'why': bad, 'dedup': f"gate:{bad[:40]}"})
         else:
             res['discharged'] += 1
             if len(res['witnesses']) < 3 and eng.check3() == 'sat':
-                m = eng.solver.model()
+                m = eng.model()
                 res['witnesses'].append({'kind': 'parse', 'buffer': rdrdrv.model_bytes(m, x).hex(),
                                          'validate': m.eval(v.t, model_completion=True).as_long(), 'checks': ['crcgate', 'total']})
     res.absorb_engine(eng)
@@ -423,7 +423,7 @@ def run_direct(res):
                 eng.unknowns = 0
             elif r == 'sat':
                 res['refuted'] += 1
-                res['cex'].append(crc_case(rdrdrv.model_bytes(eng.solver.model(), H['m']), f"direct L={L}: differs from CRC-24Q"))
+                res['cex'].append(crc_case(rdrdrv.model_bytes(eng.model(), H['m']), f"direct L={L}: differs from CRC-24Q"))
             else:
                 res['inconclusive'].append(f"direct L={L}: unknown")
         res.absorb_engine(eng)
@@ -458,7 +458,7 @@ def run_crc2bytes(res):
             else:
                 res['refuted'] += 1
                 if eng.check3() == 'sat':
-                    res['cex'].append(crc_case(rdrdrv.model_bytes(eng.solver.model(), H['m']), "crc2bytes is not the big-endian CRC", {'check': 'crc2bytes'}))
+                    res['cex'].append(crc_case(rdrdrv.model_bytes(eng.model(), H['m']), "crc2bytes is not the big-endian CRC", {'check': 'crc2bytes'}))
         res.absorb_engine(eng)
 
 
@@ -546,7 +546,7 @@ def run_valoff(res):
             else:
                 res['refuted'] += 1
                 if eng.check3() == 'sat':
-                    m = eng.solver.model()
+                    m = eng.model()
                     vals = {str(d): m[d].as_long() for d in m.decls()}
                     pl = bytes(vals.get(f"p{i}", 0) for i in range(plen))
                     f1 = bytes([0xD3, plen >> 8, plen & 0xFF]) + pl + bytes(vals.get(f"c{i}", 0) for i in range(3))
@@ -584,7 +584,7 @@ def run_hist(res):
                     res['obligations'] += 1
                     res['refuted'] += 1
                     if eng.check3() == 'sat':
-                        m = eng.solver.model()
+                        m = eng.model()
                         res['cex'].append({'kind': 'crcseq', 'seq': [rdrdrv.model_bytes(m, H['a']).hex(), rdrdrv.model_bytes(m, H['b']).hex()],
                                            'why': f"calc_crc24q raised {type(path.value).__name__}", 'dedup': "hist:exc"})
                 else:
@@ -601,7 +601,7 @@ def run_hist(res):
             n = 0
             for i in range(min(L1, L2)):
                 if eng.check3(sym.byte_term(H['a'].e[i]) != sym.byte_term(H['b'].e[i])) == 'sat':
-                    m = eng.solver.model()
+                    m = eng.model()
                     res['cex'].append({'kind': 'crcseq', 'seq': [rdrdrv.model_bytes(m, H['a']).hex(), rdrdrv.model_bytes(m, H['b']).hex()],
                                        'why': f"checksum of the second message depends on the first ({sorted(leak)[:3]})", 'dedup': f"hist:{L1}:{L2}:{i}"})
                     n += 1
